@@ -22,17 +22,14 @@ def run(ctx):
     if corpus:
         batches.append(corpus)
     n = 10000 if thorough else 320
-    cases = []
-    for k in range(n):
-        h = S.random_history(rng, "raw", max_cycles=4, max_appends=5)
+    cases = [S.random_history(rng, "raw", max_cycles=4, max_appends=5).case(tag="random") for _ in range(n)]
+    calls = S.model_calls(drv, cases)
+    for k, c in enumerate(cases):
         mode = k % 4
-        if mode == 0:
-            faults = []
-        elif mode in (1, 2):
-            faults = S.random_faults(rng, 6 * len(h.ops), short_only=True)      # short-write patterns only
-        else:
-            faults = S.random_faults(rng, 6 * len(h.ops))                       # with hard failures
-        cases.append(h.case(faults, tag="random"))
+        if mode in (1, 2):
+            c.faults = S.short_write_faults(rng, calls[k], rng.choice([0.15, 0.4, 0.8]))   # short-write patterns only
+        elif mode == 3:
+            c.faults = S.short_write_faults(rng, calls[k], 0.2) + S.random_faults(rng, len(calls[k]))  # hard failures too
     for i in range(0, len(cases), 2000):
         batches.append(cases[i:i + 2000])
     all_cases = []
